@@ -11,7 +11,7 @@ pub fn scenarios(prop: &str) -> Vec<Box<dyn Scenario>> {
         "C06" => vec![Box::new(scen_uow::UowClose), Box::new(scen_uow::UowChain)],
         "C13" => vec![Box::new(scen_uow::UowSlots)],
         "C14" => vec![Box::new(scen_emf::EmfHistory)],
-        "C18" => vec![Box::new(scen_time::Timers), Box::new(scen_time::FakeClock)],
+        "C18" => vec![Box::new(scen_time::Timers), Box::new(scen_time::FakeClock), Box::new(scen_time::TokioClock)],
         "C12" => vec![Box::new(scen_sample::FixedFraction), Box::new(scen_sample::Congress)],
         "C17" => vec![Box::new(scen_global::GlobalRouting)],
         "C16" => vec![Box::new(scen_emf::EmfWriterFaults), Box::new(scen_emf::SinkFaults), Box::new(scen_emf::Pipeline)],
